@@ -579,8 +579,9 @@ def workload(ctx, repo):
         for desc in recgen.clamp_descs(mode):
             j += 1
             a = desc.get("start") or desc.get("end")
-            must = "week_of_year" in a and "years" in desc["dur"] and \
-                desc["reps"] is None
+            must = desc["reps"] is None and (
+                ("week_of_year" in a and "years" in desc["dur"]) or
+                (desc["dur"] == {"months": 12} and "day_of_month" in a))
             if must:
                 if not ctx.mine(j):
                     continue
